@@ -4,6 +4,9 @@ go 1.23.4
 
 toolchain go1.24.2
 
-require github.com/bufbuild/buf v0.0.0
+require (
+	github.com/bufbuild/buf v0.0.0
+	github.com/klauspost/compress v1.18.0
+)
 
 replace github.com/bufbuild/buf => /repo
